@@ -45,6 +45,7 @@ def floors(tier):
 
 def run_case(rng, idx, tier, lane, ctx):
     spec = GE.gen_events(rng, limits="default", closed=True, sym_mag=True, max_mag=3)
+    grow_k = S.maybe_grown(rng, spec, 0.3)     # built for the first k states, evaluated, then extended (states via state_list, processes via add_*)
     if rng.random() < 0.2:  # a half-integer magnitude somewhere
         e = rng.choice(spec["events"])
         rng.choice(e["trans"])[3] = "0.5"
@@ -53,6 +54,8 @@ def run_case(rng, idx, tier, lane, ctx):
     ref = RefModel(spec)
     names = spec["states"] + spec["params"] + ["t"]
     cls = G.classes(spec)
+    if grow_k:
+        cls.append("grown-model")
     counters = {"symbolic_sums": 0, "numeric_sums": 0, "deterministic_solutions": 0, "stochastic_paths": 0, "gridded_rows_checked": 0,
                 "det_inconclusive": 0}
     wit = []
@@ -64,7 +67,7 @@ def run_case(rng, idx, tier, lane, ctx):
         wit.append(d)
 
     try:
-        m = S.build_sim(spec, theta, x0)
+        m = S.build_sim(spec, theta, x0, grown=(rng, grow_k) if grow_k else None)
     except Exception as e:
         return {"status": "violated", "sample": spec, "counters": counters,
                 "witnesses": [{"what": "model construction raised", "error": short_exc(e), "tb": tb_tail(e)}]}
